@@ -88,7 +88,8 @@ class Insert(ASTNode):
 
     def get_string(self, *args, **kwargs):
         if self.columns is not None:
-            cols = ', '.join([Identifier(parts=[i.name]).to_string() for i in self.columns])
+            # a name holding a back-quote cannot be quoted (such a 'name' is the text of an expression the grammar let through)
+            cols = ', '.join([i.name if '`' in i.name else Identifier(parts=[i.name]).to_string() for i in self.columns])
             columns_str = f'({cols})'
         else:
             columns_str = ''
